@@ -27,6 +27,8 @@ class PdoDevice(RefSdoServer):
         self.write_log = []           # (index, sub, int value, accepted, abort code)
         self.locked = False           # e.g. while OPERATIONAL: every mapping write is refused (transient device state)
         self.pdos = {}                # com index -> map index
+        self.missing_code = ABORT_NO_SUB   # what a read of a sub-entry the device does not implement is answered with: devices
+                                           # differ (0x06090011, 0x06020000, 0x060A0023, 0x08000000 are all in use)
 
     # ---- set-up
     def add_pdo(self, com, mp, cob, trans=255, subs=(1, 2, 3, 5, 6), mapping=(), inhibit=0, event=0, sync_start=0):
@@ -58,6 +60,8 @@ class PdoDevice(RefSdoServer):
 
     # ---- write rules
     def _refuse(self, kind, mux, data):
+        if kind == "upload" and mux_in(mux[0], self.pdos) and mux not in self.store:
+            return self.missing_code
         if kind != "download":
             return None
         index, sub = mux
